@@ -143,8 +143,6 @@ func runC08(c *Ctx) {
 
 	c.rule("C08.O7", "a write torn by a crash is cut off before the file is used again: newHeaderStore calls trimPartialHeader on the file it just opened and hands the store out only if that succeeded; trimPartialHeader leaves the file alone only when its size is a whole number of records (size % record size == 0) and otherwise truncates it to size - size % record size, both taken from the file's Stat and the header type's Size (the file is append-only: a fragment left behind shifts every later record, and the start-up reconciliation only removes whole records)", func() {
 		nh := c.fn("headerfs.newHeaderStore")
-		trim := c.hfs("headerFile", "trimPartialHeader")
-		calls := find(nh, callTo(trim))
 		var okRets []ssa.Instruction
 		for _, in := range find(nh, isExit) {
 			r := in.(*ssa.Return)
@@ -152,9 +150,16 @@ func runC08(c *Ctx) {
 				okRets = append(okRets, in)
 			}
 		}
-		c.guarded(nh, errNil("trimPartialHeader(hType)", calls, 0), 1, "return the opened store", okRets, 1, gDominate)
-		// the file trimmed is the one the store gets
-		tf := c.fn("(*headerfs.headerFile).trimPartialHeader")
+		// the trimming lives in trimPartialHeader or, folded, in newHeaderStore itself
+		tf := c.P.Func("(*headerfs.headerFile).trimPartialHeader")
+		folded := tf == nil
+		if folded {
+			tf = nh
+		} else {
+			c.R.Funcs[c.nm(tf)] = true
+			calls := find(nh, callTo(c.hfs("headerFile", "trimPartialHeader")))
+			c.guarded(nh, errNil("trimPartialHeader(hType)", calls, 0), 1, "return the opened store", okRets, 1, gDominate)
+		}
 		truncFile := c.hfs("headerFile", "truncateFile")
 		sizeOfType := c.method("headerfs", "HeaderType", "Size")
 		isFileSize := func(v ssa.Value) bool {
@@ -174,25 +179,28 @@ func runC08(c *Ctx) {
 			b, ok := ir.Strip(v).(*ssa.BinOp)
 			return ok && b.Op == token.REM && isFileSize(b.X) && isRecSize(b.Y)
 		}
-		tr := find(tf, callTo(truncFile))
-		okArg := len(tr) >= 1
-		for _, in := range tr {
+		var tr []ssa.Instruction
+		for _, in := range find(tf, callTo(truncFile)) {
 			a := argsOf(in)
-			b, isB := ir.Strip(a[0]).(*ssa.BinOp)
-			if len(a) != 1 || !isB || b.Op != token.SUB || !isFileSize(b.X) || !isRem(b.Y) {
-				okArg = false
+			if b, isB := ir.Strip(a[0]).(*ssa.BinOp); len(a) == 1 && isB && b.Op == token.SUB && isFileSize(b.X) && isRem(b.Y) {
+				tr = append(tr, in)
 			}
 		}
-		c.verdict(okArg, c.nm(tf)+" | truncates to size - size % record size", c.P.Pos(tf.Pos()), "truncateFile(fileSize - fileSize % recordSize)", "trimPartialHeader does not cut the file back to the last whole record (size - size % record size, with size from Stat and the record size from HeaderType.Size)", c.ats(tr)...)
+		c.verdict(len(tr) >= 1, c.nm(tf)+" | truncates to size - size % record size", c.P.Pos(tf.Pos()), "truncateFile(fileSize - fileSize % recordSize)", "the file is not cut back to the last whole record on open (size - size % record size, with size from Stat and the record size from HeaderType.Size)", c.ats(tr)...)
 		// success without truncation only for a whole number of records
 		whole := equalIs("size % record size vs 0", find(tf, binops(eqOps, isRem, constIntIs(0))), true)
-		var nilRets []ssa.Instruction
-		for _, in := range find(tf, isExit) {
-			r := in.(*ssa.Return)
-			if len(r.Results) == 1 && ir.IsNil(r.Results[0]) {
-				nilRets = append(nilRets, in)
+		if folded {
+			g := unionGuard("size % record size == 0, or truncateFile(size - size % record size) = nil", whole, errNil("truncateFile(size - size % record size)", tr, 0))
+			c.guarded(nh, g, 1, "return the opened store", okRets, 1, gDominate)
+		} else {
+			var nilRets []ssa.Instruction
+			for _, in := range find(tf, isExit) {
+				r := in.(*ssa.Return)
+				if len(r.Results) == 1 && ir.IsNil(r.Results[0]) {
+					nilRets = append(nilRets, in)
+				}
 			}
+			c.guarded(tf, whole, 1, "return nil without truncating", nilRets, 1, gDominate)
 		}
-		c.guarded(tf, whole, 1, "return nil without truncating", nilRets, 1, gDominate)
 	})
 }
